@@ -12,7 +12,7 @@ From Coq Require Import ZifyBool ZifyNat ZifyN.
 From Bio Require Import Base.
 From Bio.gen Require Import ImpGen.
 From Bio.Model Require Import GoSem GoLib Newick.
-From Bio.Proofs Require Import ImpProofs ImpProofsB ImpProofsE ImpProofsG ImpProofsM NewickProofs NewickProofsB.
+From Bio.Proofs Require Import ImpProofs ImpProofsB ImpProofsE ImpProofsG ImpProofsM NewickProofs NewickProofsB NewickProofsC.
 From Bio.Proofs Require ImpProofsJ.
 Open Scope Z_scope.
 
@@ -489,6 +489,98 @@ Proof.
 Qed.
 
 End Read.
+
+(* ---- Reader: read() until io.EOF, on one growing heap ---------------------------------------------------- *)
+Section NewickReader.
+Variable o : foracle.
+Variable tm : term.
+Notation tc := (ImpProofsJ.term_code tm).
+
+(* an item of the model against an item of the translated iterator, read in the heap h *)
+Definition item_holds (h : heap) (i : item tree) (x : Z * Z) : Prop :=
+  match i with
+  | Rec t => snd x = 0 /\ holds h (go_len h) (fst x) t
+  | ErrItem => fst x = -1 /\ (snd x = 2 \/ snd x = 3)
+  end.
+
+Lemma item_holds_keeps h h' i x : keeps (go_len h) h h' -> item_holds h i x -> item_holds h' i x.
+Proof.
+  intros [L F] H. destruct i as [t|]; [|exact H]. destruct H as [E H]. split; [exact E|].
+  apply holds_mono with (bound := go_len h); [exact L|]. apply (holds_frame h); auto.
+  intros z Rz. apply F. destruct t. apply holds_unfold in H. lia.
+Qed.
+
+Definition nr_state : Type := (imp_newickrd_reader * list (Z * Z) * go_stream * heap)%type.
+Definition nr_result : Type := (go_stream * (heap * list (Z * Z)))%type.
+Definition nr_body (fuel : nat) : nr_state -> res nr_state nr_result :=
+  (fun '((rd, out__, rd__, h__) : (imp_newickrd_reader * _ * go_stream * (list imp_newickrd_Node))) => go_call (imp_newickrd_reader_read fuel o h__ rd__ rd) (fun '(rd__, t__3, (h__, (t__1, t__2))) => let rd := t__3 in let n := t__1 in let err := t__2 in (if (Z.eqb err 1%Z) then Ret (rd__, (h__, out__)) else (if (negb (Z.eqb err 0%Z)) then (let out__ := out__ ++ [((-1)%Z, err)] in let t__4 := true in Ret (rd__, (h__, out__))) else (let out__ := out__ ++ [(n, 0%Z)] in let t__5 := true in (if (negb t__5) then Ret (rd__, (h__, out__)) else Next (rd, out__, rd__, h__))))))).
+
+Lemma keeps_weaken base base' h h' : base' <= base -> keeps base h h' -> keeps base' h h'.
+Proof. intros Le [L F]. split; auto. intros z Rz. apply F. lia. Qed.
+
+Lemma nr_loop base0 h0 fuel : forall n s h last rbuf out acc gf,
+  (n < gf)%nat -> (length s + 2 < fuel)%nat -> keeps base0 h0 h -> base0 <= go_len h ->
+  Forall2 (item_holds h) (rev acc) out ->
+  match decode_loop o n s tm acc with
+  | Ok items => exists st h' out',
+      go_while gf (fun _ => Ret true) (nr_body fuel) (rbuf, out, Stream s tc last, h) = Ret (st, (h', out')) /\
+      Forall2 (item_holds h') items out' /\ keeps base0 h0 h'
+  | _ => True
+  end.
+Proof.
+  induction n as [|n IH]; intros s h last rbuf out acc gf Hg Hf HK Hb HA; [exact I|].
+  destruct gf as [|gf]; [lia|]. cbn [decode_loop go_while]. unfold nr_body at 1. cbv beta iota.
+  pose proof (imp_read_ok o tm fuel h s last rbuf Hf) as HR.
+  destruct (read_tree o s tm) as [t rest| | |] eqn:Ert; cbn [rd_agrees] in HR.
+  - destruct HR as (last' & rbuf' & h' & a & -> & Hh & Hk & Ba). cbn [go_call]. cbv beta iota zeta.
+    cbn [Z.eqb negb].
+    assert (Hlen : (length rest < length s)%nat).
+    { unfold read_tree in Ert. apply read_loop_rest in Ert. exact Ert. }
+    assert (K1 : keeps base0 h0 h').
+    { eapply keeps_trans; [exact HK|]. eapply keeps_weaken; [|exact Hk]. exact Hb. }
+    assert (K2 : base0 <= go_len h') by (destruct Hk; lia).
+    assert (K3 : Forall2 (item_holds h') (rev (Rec t :: acc)) (out ++ [(a, 0)])).
+    { cbn [rev]. apply Forall2_app.
+      - eapply Forall2_impl'; [|exact HA]. intros i x. apply item_holds_keeps. exact Hk.
+      - constructor; [|constructor]. split; [reflexivity | exact Hh]. }
+    specialize (IH rest h' last' rbuf' (out ++ [(a, 0)]) (Rec t :: acc) gf ltac:(lia) ltac:(lia) K1 K2 K3).
+    destruct (decode_loop o n rest tm (Rec t :: acc)) as [items| |]; auto.
+  - destruct HR as (st & rbuf' & h' & -> & Hk). cbn [go_call]. cbv beta iota zeta. cbn [Z.eqb Pos.eqb].
+    exists st, h', out. split; [reflexivity|]. split.
+    + eapply Forall2_impl'; [|exact HA]. intros i x. apply item_holds_keeps. exact Hk.
+    + eapply keeps_trans; [exact HK|]. eapply keeps_weaken; [|exact Hk]. exact Hb.
+  - destruct HR as (st & rbuf' & h' & e & -> & He & Hk). cbn [go_call]. cbv beta iota zeta.
+    exists st, h', (out ++ [(-1, e)]). split.
+    + destruct He as [-> | ->]; reflexivity.
+    + split.
+      * cbn [rev]. apply Forall2_app.
+        -- eapply Forall2_impl'; [|exact HA]. intros i x. apply item_holds_keeps. exact Hk.
+        -- constructor; [|constructor]. split; [reflexivity | exact He].
+      * eapply keeps_trans; [exact HK|]. eapply keeps_weaken; [|exact Hk]. exact Hb.
+  - exact I.
+Qed.
+
+Theorem imp_newick_Reader_ok fuel h s : (length s + 2 < fuel)%nat ->
+  match decode o s tm with
+  | Ok items => exists st h' out,
+      imp_newickrd_Reader fuel o h (Stream s tc None) = Ret (st, (h', out)) /\
+      Forall2 (item_holds h') items out /\ keeps (go_len h) h h'
+  | _ => True
+  end.
+Proof.
+  intros Hf. unfold decode.
+  pose proof (nr_loop (go_len h) h fuel (S (length s)) s h None (Imp_newickrd_reader []) [] [] fuel) as H.
+  destruct (decode_loop o (S (length s)) s tm []) as [items| |]; auto.
+  destruct H as (st & h' & out & E & HF & HK); try lia; [apply keeps_refl | constructor |].
+  exists st, h', out. split; [|auto]. unfold imp_newickrd_Reader. cbv zeta.
+  change (go_while fuel _ _ ?x) with (go_while fuel (fun _ => Ret true) (nr_body fuel) x).
+  match goal with |- after ?m ?f = _ =>
+    assert (E' : forall m' : res nr_state nr_result, m' = Ret (st, (h', out)) -> after m' f = Ret (st, (h', out)))
+      by (intros m' ->; reflexivity) end.
+  apply E'. exact E.
+Qed.
+
+End NewickReader.
 
 (* ---- write, then read: both directions as translated from the source ----------------------------------- *)
 From Bio.Spec Require Import NewickSpec.
